@@ -1,7 +1,6 @@
 import H2V.Lemmas.ConnFlowPReq
 /-
-  ConnFlowP, part 18 — `ReqOk` through `pop_frame`, `buffer_pending`, the resets, SETTINGS, and all of
-  `recv.rs`.
+  ConnFlowP, part 18 — `ReqOk` through `pop_frame`, `buffer_pending`, the resets, SETTINGS.
 -/
 namespace H2V.Lemmas.ConnFlowP
 open H2V H2V.Model H2V.Model.Conn H2V.Lemmas.Comp
@@ -154,194 +153,5 @@ theorem ReqOk.sendApplyRemoteSettings {t : Streams} (h : ReqOk t) (a b c : Optio
     ReqOk (t.sendApplyRemoteSettings a b c).1 := by
   req_by Streams.sendApplyRemoteSettings
 macro_rules | `(tactic| req_peel) => `(tactic| with_reducible apply ReqOk.sendApplyRemoteSettings)
-
--- ===================================================================== recv.rs
-
-section
-variable {t : Streams}
-
-theorem ReqOk.setStream_dec (h : ReqOk t) {id len : Nat} {st1 : Stream}
-    (he : (t.stream id).decContentLength len = some st1) : ReqOk (t.setStream st1) := by
-  refine ReqOk.setStream_lt ?_ h
-  have hreq : st1.requestedSendCapacity = (t.stream id).requestedSendCapacity := by
-    unfold Stream.decContentLength at he
-    split at he
-    · split at he
-      · cases he; rfl
-      · cases he
-    · split at he
-      · cases he
-      · cases he; rfl
-    · cases he; rfl
-  rw [hreq]
-  cases hget : t.store.get? id with
-  | none =>
-    have : t.stream id = { key := id, id := 0 } := by unfold Streams.stream; rw [hget]; rfl
-    rw [this]; show (0 : Nat) < _; omega
-  | some st => rw [stream_of_get hget]; exact h st (get?_mem hget).1
-macro_rules | `(tactic| req_peel) => `(tactic| (with_reducible apply ReqOk.setStream_dec (he := by assumption)))
-
-theorem ReqOk.releaseConnectionCapacity (h : ReqOk t) (c : Nat) (b : Bool) : ReqOk (t.releaseConnectionCapacity c b) := by
-  req_by Streams.releaseConnectionCapacity
-macro_rules | `(tactic| req_peel) => `(tactic| with_reducible apply ReqOk.releaseConnectionCapacity)
-
-theorem ReqOk.releaseCapacity (h : ReqOk t) (id c : Nat) (b : Bool) : ReqOk (t.releaseCapacity id c b).1 := by
-  req_by Streams.releaseCapacity
-macro_rules | `(tactic| req_peel) => `(tactic| with_reducible apply ReqOk.releaseCapacity)
-
-theorem ReqOk.clearRecvBuffer (h : ReqOk t) (id : Nat) (b : Bool) : ReqOk (t.clearRecvBuffer id b) := by
-  req_by Streams.clearRecvBuffer
-macro_rules | `(tactic| req_peel) => `(tactic| with_reducible apply ReqOk.clearRecvBuffer)
-
-theorem ReqOk.releaseClosedCapacity (h : ReqOk t) (id : Nat) : ReqOk (t.releaseClosedCapacity id) := by
-  req_by Streams.releaseClosedCapacity
-macro_rules | `(tactic| req_peel) => `(tactic| with_reducible apply ReqOk.releaseClosedCapacity)
-
-theorem ReqOk.setTargetConnectionWindow (h : ReqOk t) (n : Nat) : ReqOk (t.setTargetConnectionWindow n).1 := by
-  req_by Streams.setTargetConnectionWindow
-macro_rules | `(tactic| req_peel) => `(tactic| with_reducible apply ReqOk.setTargetConnectionWindow)
-
-theorem ReqOk.consumeConnectionWindow (h : ReqOk t) (n : Nat) : ReqOk (t.consumeConnectionWindow n).1 := by
-  req_by Streams.consumeConnectionWindow
-macro_rules | `(tactic| req_peel) => `(tactic| with_reducible apply ReqOk.consumeConnectionWindow)
-
-theorem ReqOk.ignoreData (h : ReqOk t) (n : Nat) : ReqOk (t.ignoreData n).1 := by
-  req_by Streams.ignoreData
-macro_rules | `(tactic| req_peel) => `(tactic| with_reducible apply ReqOk.ignoreData)
-
-theorem ReqOk.recvOpen (h : ReqOk t) (id : Nat) (b : Bool) : ReqOk (t.recvOpen id b).1 := by
-  req_by Streams.recvOpen
-macro_rules | `(tactic| req_peel) => `(tactic| with_reducible apply ReqOk.recvOpen)
-
-set_option maxHeartbeats 800000 in
-theorem ReqOk.recvRecvHeaders (h : ReqOk t) (id : Nat) (hd : HeadersIn) : ReqOk (t.recvRecvHeaders id hd).1 := by
-  req_by Streams.recvRecvHeaders
-macro_rules | `(tactic| req_peel) => `(tactic| with_reducible apply ReqOk.recvRecvHeaders)
-
-theorem ReqOk.recvRecvTrailers (h : ReqOk t) (id : Nat) (hd : HeadersIn) : ReqOk (t.recvRecvTrailers id hd).1 := by
-  req_by Streams.recvRecvTrailers
-macro_rules | `(tactic| req_peel) => `(tactic| with_reducible apply ReqOk.recvRecvTrailers)
-
-set_option maxHeartbeats 800000 in
-theorem ReqOk.recvRecvData (h : ReqOk t) (id : Nat) (p : Bytes) (eos : Bool) (pad : Option Nat) :
-    ReqOk (t.recvRecvData id p eos pad).1 := by
-  req_by Streams.recvRecvData
-macro_rules | `(tactic| req_peel) => `(tactic| with_reducible apply ReqOk.recvRecvData)
-
-theorem ReqOk.recvRecvPushPromise (h : ReqOk t) (id : Nat) (hd : HeadersIn) : ReqOk (t.recvRecvPushPromise id hd).1 := by
-  req_by Streams.recvRecvPushPromise
-macro_rules | `(tactic| req_peel) => `(tactic| with_reducible apply ReqOk.recvRecvPushPromise)
-
-theorem ReqOk.recvNextIncoming (h : ReqOk t) : ReqOk t.recvNextIncoming.1 := by
-  req_by Streams.recvNextIncoming
-macro_rules | `(tactic| req_peel) => `(tactic| with_reducible apply ReqOk.recvNextIncoming)
-
-theorem ReqOk.recvTakeRequest (h : ReqOk t) (id : Nat) : ReqOk (t.recvTakeRequest id).1 := by
-  req_by Streams.recvTakeRequest
-macro_rules | `(tactic| req_peel) => `(tactic| with_reducible apply ReqOk.recvTakeRequest)
-
-theorem ReqOk.recvRecvReset (h : ReqOk t) (id : Nat) (r : Reason) : ReqOk (t.recvRecvReset id r).1 := by
-  req_by Streams.recvRecvReset
-macro_rules | `(tactic| req_peel) => `(tactic| with_reducible apply ReqOk.recvRecvReset)
-
-theorem ReqOk.recvHandleError (h : ReqOk t) (id : Nat) (e : PErr) : ReqOk (t.recvHandleError id e) := by
-  req_by Streams.recvHandleError
-macro_rules | `(tactic| req_peel) => `(tactic| with_reducible apply ReqOk.recvHandleError)
-
-theorem ReqOk.recvGoAway (h : ReqOk t) (id : Nat) : ReqOk (t.recvGoAway id) := by
-  req_by Streams.recvGoAway
-macro_rules | `(tactic| req_peel) => `(tactic| with_reducible apply ReqOk.recvGoAway)
-
-theorem ReqOk.recvRecvEof (h : ReqOk t) (id : Nat) : ReqOk (t.recvRecvEof id) := by
-  req_by Streams.recvRecvEof
-macro_rules | `(tactic| req_peel) => `(tactic| with_reducible apply ReqOk.recvRecvEof)
-
-theorem ReqOk.recvMaybeResetNextStreamId (h : ReqOk t) (id : Nat) : ReqOk (t.recvMaybeResetNextStreamId id) := by
-  req_by Streams.recvMaybeResetNextStreamId
-macro_rules | `(tactic| req_peel) => `(tactic| with_reducible apply ReqOk.recvMaybeResetNextStreamId)
-
-theorem ReqOk.enqueueResetExpiration (h : ReqOk t) (id : Nat) : ReqOk (t.enqueueResetExpiration id) := by
-  req_by Streams.enqueueResetExpiration
-macro_rules | `(tactic| req_peel) => `(tactic| with_reducible apply ReqOk.enqueueResetExpiration)
-
-theorem ReqOk.sendPendingRefusal (h : ReqOk t) (w : Writer) : ReqOk (t.sendPendingRefusal w).1 := by
-  req_by Streams.sendPendingRefusal
-macro_rules | `(tactic| req_peel) => `(tactic| with_reducible apply ReqOk.sendPendingRefusal)
-
-theorem ReqOk.clearExpiredResetStreams (fuel : Nat) : ∀ {t : Streams}, ReqOk t → ReqOk (Streams.clearExpiredResetStreams fuel t) := by
-  induction fuel with
-  | zero => intro t h; exact h
-  | succ n ih => intro t h; req_by Streams.clearExpiredResetStreams
-macro_rules | `(tactic| req_peel) => `(tactic| with_reducible apply ReqOk.clearExpiredResetStreams)
-
-theorem ReqOk.clearStreamWindowUpdateQueue (fuel : Nat) :
-    ∀ {t : Streams}, ReqOk t → ReqOk (Streams.clearStreamWindowUpdateQueue fuel t) := by
-  induction fuel with
-  | zero => intro t h; exact h
-  | succ n ih => intro t h; req_by Streams.clearStreamWindowUpdateQueue
-macro_rules | `(tactic| req_peel) => `(tactic| with_reducible apply ReqOk.clearStreamWindowUpdateQueue)
-
-theorem ReqOk.clearAllResetStreams (fuel : Nat) : ∀ {t : Streams}, ReqOk t → ReqOk (Streams.clearAllResetStreams fuel t) := by
-  induction fuel with
-  | zero => intro t h; exact h
-  | succ n ih => intro t h; req_by Streams.clearAllResetStreams
-macro_rules | `(tactic| req_peel) => `(tactic| with_reducible apply ReqOk.clearAllResetStreams)
-
-theorem ReqOk.clearAllPendingAccept (fuel : Nat) : ∀ {t : Streams}, ReqOk t → ReqOk (Streams.clearAllPendingAccept fuel t) := by
-  induction fuel with
-  | zero => intro t h; exact h
-  | succ n ih => intro t h; req_by Streams.clearAllPendingAccept
-macro_rules | `(tactic| req_peel) => `(tactic| with_reducible apply ReqOk.clearAllPendingAccept)
-
-theorem ReqOk.recvClearQueues (h : ReqOk t) (b : Bool) : ReqOk (t.recvClearQueues b) := by
-  req_by Streams.recvClearQueues
-macro_rules | `(tactic| req_peel) => `(tactic| with_reducible apply ReqOk.recvClearQueues)
-
-theorem ReqOk.sendConnectionWindowUpdate (h : ReqOk t) (w : Writer) : ReqOk (t.sendConnectionWindowUpdate w).1 := by
-  req_by Streams.sendConnectionWindowUpdate
-macro_rules | `(tactic| req_peel) => `(tactic| with_reducible apply ReqOk.sendConnectionWindowUpdate)
-
-theorem ReqOk.sendStreamWindowUpdates (fuel : Nat) :
-    ∀ {t : Streams}, ReqOk t → ∀ w, ReqOk (Streams.sendStreamWindowUpdates fuel t w).1 := by
-  induction fuel with
-  | zero => intro t h w; exact h
-  | succ n ih => intro t h w; req_by Streams.sendStreamWindowUpdates
-macro_rules | `(tactic| req_peel) => `(tactic| with_reducible apply ReqOk.sendStreamWindowUpdates)
-
-theorem ReqOk.recvBufferPending (h : ReqOk t) (w : Writer) : ReqOk (t.recvBufferPending w).1 := by
-  req_by Streams.recvBufferPending
-macro_rules | `(tactic| req_peel) => `(tactic| with_reducible apply ReqOk.recvBufferPending)
-
-theorem ReqOk.scheduleRecv (h : ReqOk t) (id : Nat) (tag : String) : ReqOk (t.scheduleRecv id tag).1 := by
-  req_by Streams.scheduleRecv
-macro_rules | `(tactic| req_peel) => `(tactic| with_reducible apply ReqOk.scheduleRecv)
-
-theorem ReqOk.recvPollData (h : ReqOk t) (id : Nat) (tag : String) : ReqOk (t.recvPollData id tag).1 := by
-  req_by Streams.recvPollData
-macro_rules | `(tactic| req_peel) => `(tactic| with_reducible apply ReqOk.recvPollData)
-
-theorem ReqOk.recvPollTrailers (h : ReqOk t) (id : Nat) (tag : String) : ReqOk (t.recvPollTrailers id tag).1 := by
-  req_by Streams.recvPollTrailers
-macro_rules | `(tactic| req_peel) => `(tactic| with_reducible apply ReqOk.recvPollTrailers)
-
-theorem ReqOk.recvPollResponse (fuel : Nat) :
-    ∀ {t : Streams}, ReqOk t → ∀ id tag, ReqOk (Streams.recvPollResponse fuel t id tag).1 := by
-  induction fuel with
-  | zero => intro t h id tag; exact h
-  | succ n ih => intro t h id tag; req_by Streams.recvPollResponse
-macro_rules | `(tactic| req_peel) => `(tactic| with_reducible apply ReqOk.recvPollResponse)
-
-theorem ReqOk.recvPollInformational (h : ReqOk t) (id : Nat) (tag : String) : ReqOk (t.recvPollInformational id tag).1 := by
-  unfold Streams.recvPollInformational; dsimp only
-  split
-  · rename_i r heq
-    split at heq
-    · cases heq; exact h
-    · cases heq; req_auto
-    · cases heq
-  · req_auto
-macro_rules | `(tactic| req_peel) => `(tactic| with_reducible apply ReqOk.recvPollInformational)
-
-end
 
 end H2V.Lemmas.ConnFlowP
